@@ -139,6 +139,12 @@ func c04Shares(p *Prog, c *Check, accept string) {
 		}
 		used, miss := requireAtoms(ap.facts, b, c04Common("Shares")...)
 		if miss == "" {
+			// the size bound must hold for the configured value itself, not for a narrowed copy of it
+			if _, okS := findAtomStrict(ap.facts, "len($m.Shares) <= GetMaxNumKeysPerMessage(_)", copyBinds(b)); !okS {
+				miss = "len($m.Shares) <= GetMaxNumKeysPerMessage(_) without a value-changing conversion of the configured maximum (a maximum of 2^63 or more turns negative: every message is refused)"
+			}
+		}
+		if miss == "" {
 			if s, ok := lenAtLeastOne(ap.facts, b, "$m.Shares"); ok {
 				used = append(used, s)
 			} else {
@@ -287,6 +293,12 @@ func c04Keys(p *Prog, c *Check, accept string) {
 			continue
 		}
 		used, miss := requireAtoms(ap.facts, b, c04Common("Keys")...)
+		if miss == "" {
+			// the size bound must hold for the configured value itself, not for a narrowed copy of it
+			if _, okS := findAtomStrict(ap.facts, "len($m.Keys) <= GetMaxNumKeysPerMessage(_)", copyBinds(b)); !okS {
+				miss = "len($m.Keys) <= GetMaxNumKeysPerMessage(_) without a value-changing conversion of the configured maximum (a maximum of 2^63 or more turns negative: every message is refused)"
+			}
+		}
 		if miss == "" {
 			if s, ok := lenAtLeastOne(ap.facts, b, "$m.Keys"); ok {
 				used = append(used, s)
